@@ -210,6 +210,9 @@ SEQS = [
     ('compress_both_const_then_label', 'N = K1\naddi x8, x8, N\naddi sp, sp, N\nj e\ne:', dict(K1=7), 'addi x8, x8, N\nN:\nli x5, K2\nj N', dict(K2=8)),
     ('const_then_label', 'BUF = K1\ndb 1\nVAL = K1 + 1', dict(K1=9), 'start:\nnop\nBUF:\nj BUF\ndw BUF\nVAL:\ndw VAL\ndb K2', dict(K2=7)),
     ('const_then_undefined', 'BUF = K1\naddi x1, x0, K1', dict(K1=14), 'addi x5, x0, BUF\ndb K2', dict(K2=7)),
+    # both programs define the same label names, in the opposite order, with compressible instructions in between
+    ('compress_both_reordered_labels', 'loop:\naddi x8, x8, K1\ndone:\nbnez x8 loop\nj done', dict(K1=8),
+     'done:\naddi x8, x8, K2\nloop:\naddi x9, x9, 1\nbnez x8 loop\nj done\ndw loop', dict(K2=8)),
     ('compress_both_label_then_const', 'addi x8, x8, N\nN:\nj N', dict(K1=4), 'N = K2\naddi x8, x8, N\naddi sp, sp, N', dict(K2=7)),
 ]
 
